@@ -148,6 +148,11 @@ class Interp(LibMixin, CallMixin, StmtMixin, ExprMixin, InterpBase):
         elif p.kind in ("list", "dict", "tuple"):
             cid = t.id({"list": "list", "dict": "dict", "tuple": "tuple"}[p.kind])
             conds.append(z3.And(Val.is_VRef(v), Val.r(v) > 0, Val.r(v) < st.next_id, z3.Select(st.typeof, Val.r(v)) == cid))
+        elif p.kind == "callable":
+            # an existing value declared to be a callable with the given behaviour (e.g. a plugin class)
+            conds.append(z3.And(Val.is_VRef(v), Val.r(v) > 0, Val.r(v) < st.next_id,
+                                z3.Select(st.typeof, Val.r(v)) == t.id("function")))
+            st.ghost.setdefault("sym_callables", {})[str(z3.simplify(v))] = SymCallable("callable", p.spec)
         for c_ in conds:
             ctx.assume(c_)
         if p.kind == "obj" and p.inv and not p.nullable:
@@ -412,17 +417,21 @@ def verify_contract(index, table, contracts, c, axioms, timeout_ms=10000, max_pa
         S_.log_start = len(st.log)
         st.writes = []
         exit_kind, value, exc_origin = None, None, None
+        is_gen = any(isinstance(n, (ast.Yield, ast.YieldFrom)) for n in ast.walk(fi.node)
+                     if not isinstance(n, (ast.FunctionDef, ast.Lambda)) or n is fi.node)
+        if is_gen:
+            st.ghost.setdefault("yields", []).append([])
         try:
             try:
                 it.exec_block(fi.node.body)
-                exit_kind, value = "return", VNone
+                exit_kind, value = "return", (it.generator_result(st.ghost["yields"][-1]) if is_gen else VNone)
             except Unsupported:
                 # a path refuted by the quantified lemmas is dead: whatever went wrong on it is irrelevant
                 if ctx.lemmas and ctx._prove_unsat(quick=True) == z3.unsat:
                     raise PathAbort("dead path (refuted by lemmas)")
                 raise
             except ReturnEx as r:
-                exit_kind, value = "return", r.value
+                exit_kind, value = "return", (it.generator_result(st.ghost["yields"][-1]) if is_gen else r.value)
             except StopPrefix:
                 exit_kind, value = "prefix", VNone
             except PyRaise as pr:
